@@ -207,6 +207,10 @@ func (r *Runner) checkProperty(spec *PropSpec) int {
 	}
 	trusted := []string{"govc VC generator (this repository, /verif/govc): translation of the Go subset to SMT-LIB", "SMT solvers: z3 5.1.0 (z3-new), z3 4.8.12, cvc5 1.0", "Go type checker (go/types) and golang.org/x/tools/go/packages v0.29.0"}
 	for _, e := range externs {
+		if c := r.w.Contracts[e]; c != nil && c.Opts["default"] != "" {
+			trusted = append(trusted, "assumed default contract (arbitrary results, pointees of arguments may change, no panic, no effect on the repository's package variables): "+e)
+			continue
+		}
 		trusted = append(trusted, "assumed contract: "+e)
 	}
 	expl := fmt.Sprintf("%d proof obligations generated from the typed AST of %d functions in /repo's working tree and their contracts; %d discharged (unsat) by SMT; %d vacuity covers/canaries checked satisfiable; %d known findings; %d violations.", nObl, len(funcs), nOK, coverOK, knownPrinted, violations)
